@@ -1065,8 +1065,10 @@ impl<'a> TLVSequence<'a> {
         let len = match size_len {
             1 => u8::from_be_bytes(unwrap!(value_len_slice.try_into())) as usize,
             2 => u16::from_le_bytes(unwrap!(value_len_slice.try_into())) as usize,
-            4 => u32::from_le_bytes(unwrap!(value_len_slice.try_into())) as usize,
-            8 => u64::from_le_bytes(unwrap!(value_len_slice.try_into())) as usize,
+            4 => usize::try_from(u32::from_le_bytes(unwrap!(value_len_slice.try_into())))
+                .map_err(|_| ErrorCode::TLVTypeMismatch)?,
+            8 => usize::try_from(u64::from_le_bytes(unwrap!(value_len_slice.try_into())))
+                .map_err(|_| ErrorCode::TLVTypeMismatch)?,
             _ => unreachable!(),
         };
 
@@ -1079,12 +1081,14 @@ impl<'a> TLVSequence<'a> {
     fn container_value_len(&self, control: TLVControl) -> Result<usize, Error> {
         if control.value_type.is_container() {
             let mut next = self.clone();
-            let mut len = 0;
+            let mut len = 0_usize;
             let mut level = 1;
 
             while level > 0 {
                 next = next.next_enter()?;
-                len += next.len()?;
+                len = len
+                    .checked_add(next.len()?)
+                    .ok_or(ErrorCode::TLVTypeMismatch)?;
 
                 let control = next.control()?;
 
@@ -1110,9 +1114,11 @@ impl<'a> TLVSequence<'a> {
     fn len(&self) -> Result<usize, Error> {
         let control = self.control()?;
 
-        self.value_len(control).map(|value_len| {
-            1 + control.tag_type.size() + control.value_type.variable_size_len() + value_len
-        })
+        let value_len = self.value_len(control)?;
+
+        (1 + control.tag_type.size() + control.value_type.variable_size_len())
+            .checked_add(value_len)
+            .ok_or_else(|| ErrorCode::TLVTypeMismatch.into())
     }
 
     /// Return the length of the first TLV element in the sequence, regardless of the element type.
@@ -1120,9 +1126,11 @@ impl<'a> TLVSequence<'a> {
     pub(crate) fn container_len(&self) -> Result<usize, Error> {
         let control = self.control()?;
 
-        self.container_value_len(control).map(|value_len| {
-            1 + control.tag_type.size() + control.value_type.variable_size_len() + value_len
-        })
+        let value_len = self.container_value_len(control)?;
+
+        (1 + control.tag_type.size() + control.value_type.variable_size_len())
+            .checked_add(value_len)
+            .ok_or_else(|| ErrorCode::TLVTypeMismatch.into())
     }
 
     /// Returns a sub-slice representing the start of the next TLV element in the sequence.
